@@ -3,7 +3,7 @@
 patch="$(readlink -f "$1")"; shift
 cd /repo || exit 2
 if ! git diff --quiet; then echo "/repo dirty"; exit 2; fi
-git apply "$patch" 2>/dev/null || git apply --3way "$patch" || { echo "patch does not apply"; git checkout -- .; exit 2; }
+git apply "$patch" 2>/dev/null || git apply --3way "$patch" || { echo "patch does not apply"; git reset -q --hard HEAD; exit 2; }
 trap 'git -C /repo reset -q HEAD -- . ; git -C /repo checkout -- .' EXIT
 for id in "$@"; do
   echo "=== $id"
